@@ -9,6 +9,8 @@ package handlers
 // the sum of the counts in the AGGREGATE messages against the number of lines, and whether the session ends.
 
 import (
+	"bytes"
+	"compress/gzip"
 	"syscall"
 	"encoding/base64"
 	"fmt"
@@ -214,6 +216,16 @@ func c06Run(c c06Case, base string) (res c06Result) {
 	if c.Broken && !c.Interim {
 		os.WriteFile(filepath.Join(dir, "f00.log.gz"), []byte{}, 0644)
 		os.WriteFile(filepath.Join(dir, "f000.log.zst"), []byte("this is not zstd"), 0644)
+		// ... a gzip file that breaks off in the middle (a copy interrupted, a disk that ran full): the reader delivers what
+		// it can decode and then fails while lines are still on their way to the aggregator; its lines carry n=0, so
+		// whatever part of them is counted, the sum over the readable files stays the same
+		var zb bytes.Buffer
+		zw := gzip.NewWriter(&zb)
+		for i := 0; i < 4000; i++ {
+			fmt.Fprintf(zw, "n=0|file=0|line=%d|%s\n", i, strconv.Itoa(i*7919))
+		}
+		zw.Close()
+		os.WriteFile(filepath.Join(dir, "f0.log.gz"), zb.Bytes()[:zb.Len()*6/10], 0644)
 		// ... and a path the server refuses outright (only regular files may be read): a sub directory of that name
 		os.MkdirAll(filepath.Join(dir, "f0000.log.d"), 0755)
 	}
